@@ -44,3 +44,69 @@ func VerifReadAll(n int) {
 	}
 	verifapi.Reach("eos")
 }
+
+type verifTokRec struct {
+	kind  int
+	text  string
+	space bool
+	row   int
+}
+
+func verifTokens(src []rune) ([]verifTokRec, bool) {
+	p := New(lexer.New(reader.VerifNew(src)), "a.rb")
+	var out []verifTokRec
+	for i := 0; i < 64; i++ {
+		t, err := p.Read()
+		if err != nil {
+			return out, false
+		}
+		if t == nil {
+			return out, true
+		}
+		out = append(out, verifTokRec{t.GetType(), t.ToString(), t.IsBeforeSpace, p.ErrorRow})
+	}
+	return out, false
+}
+
+// VerifCommentLine: C06(b). For every comment body of exactly n arbitrary runes (no newline,
+// no NUL; the first one not '{', which would start an interpolation token), optionally
+// indented, the token stream of  A \n #BODY \n B  equals the token stream of  A \n \n B
+// (kinds, texts, space flags and rows): a comment-only line is a blank line.
+func VerifCommentLine(n int) {
+	indent := verifapi.Concrete(verifapi.Int("indent", 0, 1))
+	body := make([]rune, n)
+	for i := range body {
+		r := verifapi.Rune("c")
+		verifapi.Assume(r != '\n' && r != 0)
+		if i == 0 {
+			verifapi.Assume(r != '{')
+		}
+		body[i] = r
+	}
+	head := []rune("x = 1\n")
+	tail := []rune("\ny . foo\nz\n")
+	var withComment []rune
+	withComment = append(withComment, head...)
+	if indent == 1 {
+		withComment = append(withComment, ' ', ' ')
+	}
+	withComment = append(withComment, '#')
+	withComment = append(withComment, body...)
+	withComment = append(withComment, tail...)
+	var blank []rune
+	blank = append(blank, head...)
+	blank = append(blank, tail...)
+	verifapi.Witness("src", string(withComment))
+	a, okA := verifTokens(withComment)
+	b, okB := verifTokens(blank)
+	verifapi.Reach("lexed")
+	verifapi.Classify("C06/comment-line-is-not-equivalent-to-a-blank-line/token-stream-differs")
+	verifapi.Assert(okA && okB && len(a) == len(b), "C06-comment-tokens")
+	if len(a) != len(b) {
+		return
+	}
+	for i := range a {
+		verifapi.Classify("C06/comment-line-is-not-equivalent-to-a-blank-line/token-or-row-differs")
+		verifapi.Assert(a[i].kind == b[i].kind && a[i].text == b[i].text && a[i].row == b[i].row, "C06-comment-tokens")
+	}
+}
